@@ -164,6 +164,92 @@ def reauth_scenarios(ctx, backend):
             except AssertionError as e: ctx.inconc(f'reauth scenario setup failed: {e!r}')
             finally: x.close()
 
+# ---------------------------------------------------------------- calls that fail because a file-system operation of the store failed
+FAULT_SCEN = [   # (state, call): state = who is logged in + which two sessions exist; every call is made through s1
+    ('public', 'login-user'), ('public', 'setpin'), ('public', 'open-rw'), ('public', 'close-s2'), ('public', 'closeall'), ('public', 'login-wrong'),
+    ('public-rw', 'login-so'), ('public-rw', 'login-user'),
+    ('user', 'logout'), ('user', 'setpin'), ('user', 'close-s2'), ('user', 'closeall'), ('user', 'open-ro'),
+    ('so', 'logout'), ('so', 'setpin'), ('so', 'initpin'), ('so', 'close-s2'), ('so', 'closeall'), ('so', 'open-rw')]
+def fault_job(job):
+    """the same (state, call) once without a fault and then once per file-system operation of the call with that operation failing:
+    a call that FAILS must leave every session and the login state as they were; a call that returns CKR_OK must leave them as the fault-free run did"""
+    from ck import CK
+    from p11client import Exec, mkconf
+    from harness import SAN_ENV
+    import shutil
+    ck = CK(job['hdr']); part = Part(); state, call = job['scen']; be = job['backend']; SO, U = b'so-pin-f3', b'user-pin-f3'
+    base = os.path.join(job['scratch'], f'c03f-{be}-{state}-{call}'); gold = base + '-gold'; d = base + '-run'
+    for q in (gold, d): shutil.rmtree(q, ignore_errors=True)
+    def start(dirp):
+        conf = mkconf(dirp, be); x = Exec(job['paths']['asan']['exe'], job['paths']['asan']['lib'], conf, ck, env=dict(SAN_ENV), stderr=dirp + '/stderr.log'); return x
+    def prepare(x):
+        assert x.call('C_Initialize', locking='os')['rv'] == 0
+        slot = [sl for sl in x.call('C_GetSlotList', count=8)['slots'] if x.call('C_GetTokenInfo', slot=sl)['flags'] & ck.CKF_TOKEN_INITIALIZED][0]
+        s1 = x.call('C_OpenSession', slot=slot, flags=6)['h']; s2 = x.call('C_OpenSession', slot=slot, flags=6 if state in ('so', 'public-rw') else 4)['h']
+        if state == 'user': assert x.call('C_Login', s=s1, user=1, pin=U.hex())['rv'] == 0
+        if state == 'so': assert x.call('C_Login', s=s1, user=0, pin=SO.hex())['rv'] == 0
+        return slot, s1, s2
+    def victim(x, slot, s1, s2):
+        if call == 'login-user': return x.call('C_Login', s=s1, user=1, pin=U.hex())
+        if call == 'login-so': return x.call('C_Login', s=s1, user=0, pin=SO.hex())
+        if call == 'login-wrong': return x.call('C_Login', s=s1, user=1, pin=b'wrong-pin-f3'.hex())
+        if call == 'logout': return x.call('C_Logout', s=s1)
+        if call == 'setpin': return x.call('C_SetPIN', s=s1, old=(SO if state == 'so' else U).hex(), new=b'new-pin-f3'.hex())
+        if call == 'initpin': return x.call('C_InitPIN', s=s1, pin=b'init-pin-f3'.hex())
+        if call == 'close-s2': return x.call('C_CloseSession', s=s2)
+        if call == 'closeall': return x.call('C_CloseAllSessions', slot=slot)
+        if call in ('open-rw', 'open-ro'): return x.call('C_OpenSession', slot=slot, flags=6 if call == 'open-rw' else 4)
+    def look(x, hs):
+        out = []
+        for h in hs:
+            i = x.call('C_GetSessionInfo', s=h); out.append((i['rvname'], i.get('state'), i.get('flags')) if i['rv'] == 0 else (i['rvname'],))
+        return out
+    x = None
+    try:
+        x = start(gold); assert x.call('C_Initialize', locking='os')['rv'] == 0; slot = x.call('C_GetSlotList', count=8)['slots'][-1]
+        assert x.call('C_InitToken', slot=slot, pin=SO.hex(), label=b'c03f'.hex())['rv'] == 0
+        s = x.call('C_OpenSession', slot=slot, flags=6)['h']; assert x.call('C_Login', s=s, user=0, pin=SO.hex())['rv'] == 0 and x.call('C_InitPIN', s=s, pin=U.hex())['rv'] == 0
+        x.call('C_Finalize'); x.close(); x = None
+        root = d + '/tokens'
+        def fresh():
+            shutil.rmtree(d, ignore_errors=True); shutil.copytree(gold, d); return start(d)
+        # fault-free run: numbers the operations and records what success looks like
+        x = fresh(); slot, s1, s2 = prepare(x); before = look(x, [s1, s2])
+        x.call('fs', mode='count', root=root); r0 = victim(x, slot, s1, s2); N = x.call('fs', mode='status')['nops']; x.call('fs', mode='off')
+        new = [r0['h']] if call.startswith('open') and r0['rv'] == 0 else []
+        good = look(x, [s1, s2] + new); x.close(); x = None
+        part.observe('fs operations of one call (fault-free run)', {'state': state, 'call': call, 'backend': be, 'n': N, 'rv': r0['rvname']})
+        for k in range(1, min(N, job['maxops']) + 1):
+            for errno in job['errnos']:
+                x = fresh(); slot, s1, s2 = prepare(x); b4 = look(x, [s1, s2])
+                x.call('fs', mode='fail', root=root, k=k, errno=errno)
+                try: r = victim(x, slot, s1, s2)
+                except Died as e:
+                    part.observe('side:C17 library terminated the host under an FS fault', {'kind': e.kind(), 'fn': e.fn, 'call': call}); part.inconc(f'executor died under fault {call} k={k}'); x = None; continue
+                st = x.call('fs', mode='status'); x.call('fs', mode='off'); kind = (st.get('last_kind') or st.get('kind') or '?')
+                hs = [s1, s2] + ([r['h']] if call.startswith('open') and r['rv'] == 0 else [])
+                now = look(x, hs)
+                if r['rv'] != 0:
+                    if now[:2] != b4:
+                        part.violation(f'{call}|{state},fs-fault|failed-call-changed-sessions-or-login-state', 'a call that failed because a file-system operation failed changed the session or login state',
+                                       {'state': state, 'call': call, 'backend': be, 'k': k, 'errno': errno, 'rv': r['rvname'], 'before': b4, 'after': now})
+                    part.count('faulted_calls_failed')
+                else:
+                    if now != good and r0['rv'] == 0:
+                        part.violation(f'{call}|{state},fs-fault|ok-call-left-unexpected-state', 'a call that returned CKR_OK under a file-system fault left other session states than the fault-free call',
+                                       {'state': state, 'call': call, 'backend': be, 'k': k, 'errno': errno, 'fault_free': good, 'after': now})
+                    part.count('faulted_calls_ok')
+                part.count('faults_injected', 1 if st.get('injected') else 0)
+                part.case(('fault', be, state, call, k, errno), nontrivial=bool(st.get('injected')), sample={'fault_case': [state, call, be, k, errno, r['rvname'], now]} if k == 1 and errno == job['errnos'][0] else None)
+                x.close(); x = None
+    except AssertionError as e: part.inconc(f'fault lane setup failed ({state},{call},{be}): {e!r}')
+    except Died as e: part.observe('side:C17 library terminated the host', {'kind': e.kind(), 'fn': e.fn}); part.inconc(f'executor died in fault lane ({state},{call})')
+    except Hang: part.inconc(f'hang in fault lane ({state},{call})')
+    finally:
+        if x is not None: x.kill()
+        for q in (gold, d): shutil.rmtree(q, ignore_errors=True)
+    return part
+
 W = {'open': 6, 'close': 3, 'closeall': 1, 'login': 6, 'logout': 3, 'inittoken': 1, 'initpin': 2, 'setpin': 2, 'create': 1, 'find': 1, 'restart': 1}
 def run(ctx):
     ctx.need('asan'); bound = ctx.q(4, 5)
@@ -179,10 +265,13 @@ def run(ctx):
                      bound=f'<= {bound} sessions, {NTOK} tokens', checker_cmd='./check C03 --tier ' + ctx.tier)
     if left: ctx.inconc(f'{left} edges of the abstract graph were not executed')
     for b in ctx.q(('file',), ('file', 'db')): reauth_scenarios(ctx, b)
+    fjobs = [dict(paths=ctx.paths, hdr=ctx.paths['asan']['hdr'], scratch=ctx.scratch, scen=sc, backend=b, maxops=ctx.q(40, 200), errnos=ctx.q((5,), (5, 28, 13))) for b in ctx.q(('file',), ('file', 'db')) for sc in FAULT_SCEN]
+    for part in pmap(fault_job, fjobs, nw): ctx.merge(part)
     # random walks beyond the bound (up to 5 sessions, object operations and restarts mixed in)
     run_walks(ctx, {'C03'}, ctx.q(150, 2500), ctx.q(80, 200), weights=W, backends=ctx.q(('file',), ('file', 'db')), monitors=('state',))
     ctx.rule = ('exhaustive: every edge (abstract state, symbol) of the model graph is executed once on the real library by an edge tour (distinct = edges executed with model and library in that state); '
                 'abstract state = ((login, user-PIN-set) per token, multiset of (token, RW) sessions); symbols = open/close/close-all/login(SO|USER|CTX, right|wrong)/logout/InitToken(right|wrong)/InitPIN/SetPIN(right|wrong)/GetSessionInfo; '
-                'after every call C_GetSessionInfo of all live and a sample of dead sessions is compared with the model; plus random walks (steps and probes counted as evaluations)')
+                'after every call C_GetSessionInfo of all live and a sample of dead sessions is compared with the model; plus random walks (steps and probes counted as evaluations); '
+                'plus a fault lane: 19 (login state, call) pairs, each repeated with the k-th file-system operation of the call failing (every k): a failed call must leave all sessions as they were')
     ctx.assumptions += ['two tokens; the edge tour uses one concrete PIN history per abstract state (PIN values are exercised by C04)']
 if __name__ == '__main__': main('C03', run, level='model_checking', min_evaluations=2000, min_distinct=200)
